@@ -2,13 +2,13 @@
    The atomic shape of the three mutators of the state word, and the state bit constants. *)
 From XMT Require Import Base.Prelude Model.Interleave.
 
-Definition gen_set : mutator := Mutator LoadStore [ALoad; AStore (EOr ECur EArg)].
+Definition gen_set : mutator := Mutator CasLoop [ALoad; ACas (EOr ECur EArg)].
 Definition gen_set_argbits : Z := 32.
 
-Definition gen_unset : mutator := Mutator LoadStore [ALoad; AStore (EAndNot ECur EArg)].
+Definition gen_unset : mutator := Mutator CasLoop [ALoad; ACas (EAndNot ECur EArg)].
 Definition gen_unset_argbits : Z := 32.
 
-Definition gen_setlast : mutator := Mutator LoadStore [ALoad; AStore (EOr (EU32 (EShl (EU32 EArg) 16)) (EU32 (EU16 ECur)))].
+Definition gen_setlast : mutator := Mutator CasLoop [ALoad; ACas (EOr (EU32 (EShl (EU32 EArg) 16)) (EU32 (EU16 ECur)))].
 Definition gen_setlast_argbits : Z := 16.
 
 (* constants of c2/state.go in declaration order *)
